@@ -62,6 +62,7 @@ NOT_DECIDED = ('epsilon closures on graphs with more than 4 states or more than 
                'deliberately not reported.  The DESIGN clause "strict > in set_action/highest_priority_action" is replaced by the evaluated pipeline: with unique '
                'token numbers >= is behaviour-preserving, so demanding the operator itself would be a brittle proxy.')
 ASSUMPTIONS = ['token numbers stay far below 2**31 (priorities are C ints in the compiled module)',
+               'NFA nodes hash by their address (Machines.Node.__hash__ = id(self) & maxint), so a set of nodes can be iterated in any order (C50-EPS evaluates every order)',
                'the BOL pseudo-character is only ever fed at the start of the input and after a newline (decided by C50-INPUT for the current dispatch)']
 
 P = 'Cython/Plex/'
